@@ -185,7 +185,7 @@ def ekeyOf (f : Fmt) (s : Array Nat) (ver idx : Nat) (e : Entry) : Except Err EK
   | _ =>
     if f == .po && e.kind == .entity then
       match poCreate s e.s with
-      | some p => .ok (EKey.po (poEval s p.msgid) (p.msgctxt.map (poEval s)))
+      | some p => .ok (EKey.po (poEvalT s p.msgid) (p.msgctxt.map (poEvalT s)))
       | none => .error .internal
     else .ok (EKey.str (slice s e.ks.toNat e.ke.toNat))
 
